@@ -17,3 +17,18 @@ def evalSlSend (args : List String) : String :=
   | _ => "bad-op"
 
 end Bmc.Driver
+
+namespace Bmc.Driver
+/-- `slhist <7 args> / <7 args> / …`: every command on a connection behaves as on a fresh one -/
+def evalSlHist (args : List String) : String :=
+  let rec go (fuel : Nat) (a : List String) (acc : List String) : List String :=
+    match fuel with
+    | 0 => acc
+    | f + 1 =>
+      if a.length < 7 then acc else
+      let r := evalSlSend (a.take 7)
+      let rest := a.drop 7
+      let rest := if rest.head? == some "/" then rest.drop 1 else rest
+      go f rest (acc ++ [r])
+  " ; ".intercalate (go args.length args [])
+end Bmc.Driver
